@@ -102,6 +102,12 @@ def apply_op(op, c):
         return c[:j] + c[j + 1:] if j >= 0 else PassResult.INVALID
     if k == 'set':
         return op[1].encode('latin-1')
+    if k == 'wait':
+        # a transformation that takes a while (real pool only: the scripted model has no time): then delete byte i
+        import time
+        time.sleep(op[1])
+        i = op[2]
+        return c[:i] + c[i + 1:] if i < len(c) else PassResult.INVALID
     if k == 'same':
         return c
     if k == 'inval':
